@@ -17,6 +17,34 @@ ANYCHAR = z3.AllChar(z3.ReSort(z3.StringSort()))
 EPS = z3.Re('')
 
 
+_CLASS_CACHE = {}
+
+
+def _unicode_class(name):
+    """Python's str semantics of \\d, \\w, \\s: Unicode categories, not the
+    ASCII ones (no re.ASCII flag in jsonschema's use of `pattern`)"""
+    if name in _CLASS_CACHE:
+        return _CLASS_CACHE[name]
+    pat = re.compile({'d': r'\d', 'w': r'\w', 's': r'\s'}[name])
+    ranges, start, prev = [], None, None
+    for cp in range(0x30000):           # z3's character range
+        if 0xD800 <= cp <= 0xDFFF:
+            hit = False
+        else:
+            hit = pat.match(chr(cp)) is not None
+        if hit and start is None:
+            start = cp
+        if not hit and start is not None:
+            ranges.append((start, cp - 1))
+            start = None
+    if start is not None:
+        ranges.append((start, 0x2FFFF))
+    alts = [z3.Range(chr(a), chr(b)) if a != b else z3.Re(chr(a))
+            for a, b in ranges]
+    _CLASS_CACHE[name] = alts
+    return alts
+
+
 def _charset(items):
     alts = []
     neg = False
@@ -29,10 +57,11 @@ def _charset(items):
             alts.append(z3.Range(chr(av[0]), chr(av[1])))
         elif op is sre_c.CATEGORY:
             if av is sre_c.CATEGORY_DIGIT:
-                alts.append(z3.Range('0', '9'))
+                alts += _unicode_class('d')
             elif av is sre_c.CATEGORY_WORD:
-                alts += [z3.Range('0', '9'), z3.Range('a', 'z'),
-                         z3.Range('A', 'Z'), z3.Re('_')]
+                alts += _unicode_class('w')
+            elif av is sre_c.CATEGORY_SPACE:
+                alts += _unicode_class('s')
             else:
                 raise NotImplementedError('category %s' % av)
         else:
